@@ -39,6 +39,7 @@ def run(chk):
         mv = dlist.moving_visitor_scripts()
         chk.extra["moving_visitor_scripts_on_the_implementation_only"] = len(mv)
         vlib.run_impl_only(chk, dlist, c_exe, mv, dlist.oracle)
+        vlib.run_scripts(chk, dlist, c_exe, m_exe, dlist.sort_pattern_scripts(), dlist.oracle)
         big = dlist.bigsort_scripts(chk.rng, chk.tier == "quick")
         chk.extra["long_list_sorts"] = [sc[0] for sc in big]
         vlib.run_scripts(chk, dlist, c_exe, m_exe, big, dlist.oracle)
